@@ -2,7 +2,6 @@ package bmnumbers
 
 import (
 	"errors"
-	"fmt"
 	"math"
 	"regexp"
 	"strconv"
@@ -74,8 +73,9 @@ func (d Float32) ExportString(n *BMNumber) (string, error) {
 		s = s | (uint32(n.number[i]) << uint32(8*i))
 	}
 
-	// return "0f<32>" + strconv.FormatFloat(float64(math.Float32frombits(s)), 'f', -1, 32), nil
-	return "0f<32>" + fmt.Sprintf("%.20f", float64(math.Float32frombits(s))), nil
+	// The shortest decimal form that reads back as the same float32: a fixed
+	// number of decimals prints small magnitudes as zero
+	return "0f<32>" + strconv.FormatFloat(float64(math.Float32frombits(s)), 'f', -1, 32), nil
 }
 
 func (d Float32) ShowInstructions() map[string]string {
